@@ -45,15 +45,23 @@ func (e *verifE1) fork(i int, oracle string) *verifFork {
 	verifForkSeq++
 	dir := filepath.Join(e.dir, fmt.Sprintf("fork-%d", verifForkSeq))
 	os.MkdirAll(dir, 0o755)
-	f, err := os.Create(filepath.Join(dir, "channel.db"))
-	if err != nil {
-		e.vc.t.Fatalf("fork: %v", err)
-	}
-	if err := p.backend.Copy(f); err != nil {
+	if verifUseSqlite {
+		// sqlbase has no Copy: the image is taken at file level
+		// (e1_sqlite_test.go).
+		if err := verifSqliteImage(e, i, dir); err != nil {
+			e.vc.t.Fatalf("fork image: %v", err)
+		}
+	} else {
+		f, err := os.Create(filepath.Join(dir, "channel.db"))
+		if err != nil {
+			e.vc.t.Fatalf("fork: %v", err)
+		}
+		if err := p.backend.Copy(f); err != nil {
+			f.Close()
+			e.vc.t.Fatalf("fork copy: %v", err)
+		}
 		f.Close()
-		e.vc.t.Fatalf("fork copy: %v", err)
 	}
-	f.Close()
 	db, _, err := verifOpenDB(dir)
 	if err != nil {
 		e.vc.t.Fatalf("fork open: %v", err)
